@@ -23,7 +23,8 @@ NAMES = VARS + FUNCS + CLASSES + OBJS + PARAMS + KPARAMS + ATTRS + METHODS + [CO
 FUEL = 24
 MAX_LOG = 250
 # generator features = loci of known findings (masks): a masked program has none of them
-FEATURES = ("deco-order", "temp-inst", "native-enclosing", "comp-target", "global-skip", "class-in-func", "del-global")
+FEATURES = ("deco-order", "temp-inst", "native-enclosing", "comp-target", "global-skip", "class-in-func", "del-global",
+            "nested-default")
 
 
 def I(n):
@@ -110,6 +111,8 @@ class Gen:
     def gen_defaults(self, ctx, sig, traced):
         def one():
             a = self.atom(ctx) if self.r.random() < 0.5 else self.const()
+            if a["k"] == "name" and not self.feat["nested-default"] and ctx["kind"] == "func" and a["x"] in ctx["encl"]:
+                a = self.const()
             return self.ev(a) if traced else a
         return [one() for _ in range(sig["ndef"])], [one() for k in sig["ko"] if k["hasdef"]]
 
@@ -278,6 +281,10 @@ class Gen:
             choices += ["def", "def", "def", "for", "ifrec", "with", "tryexc", "class", "lambda", "native", "decodef", "loopclosure", "comp"]
         if kind == "func":
             choices += ["ret", "nonread"]
+            if not deep:
+                choices += ["nlclosure", "nlclosure"]
+        if kind in ("func", "module") and not deep:
+            choices += ["glclosure"]
         if self.classes:
             choices += ["inst", "inst", "mcall", "mcall", "attr", "setattr", "tempcall"]
         k = r.choice(choices)
@@ -408,6 +415,34 @@ class Gen:
             mid = [self.gen_stmt(ctx)] if r.random() < 0.4 else []
             mid = [m for m in mid if isinstance(m, dict) and m["k"] != "ret"]
             return [loop] + mid + [after]
+        if k in ("nlclosure", "glclosure"):
+            # a variable bound here, an inner function that declares it nonlocal / global, reads and rebinds it,
+            # called at once (the variable is bound at the call: no unbound-capture), then read again out here
+            self.budget -= 2
+            x = r.choice(VARS)
+            fx = r.choice(FUNCS)
+            ci = len(self.codes)
+            self.codes.append(None)
+            body = [{"k": "expr", "e": self.ev(N(x)), "g": self.site()}]
+            if r.random() < 0.8:
+                body.append({"k": "assign", "x": x, "e": self.const(), "g": 0})
+            if r.random() < 0.3:
+                body.append({"k": "del", "x": x, "g": self.site()})
+            body.append({"k": "expr", "e": self.ev(N(x)), "g": self.site()})
+            decl = "nonlocals" if k == "nlclosure" else "globals"
+            self.codes[ci] = new_code("func", body=body, **{decl: [x]})
+            self.sigs[fx] = EMPTY_SIG()
+            self.bind(ctx, x)
+            self.bind(ctx, fx)
+            out = [{"k": "assign", "x": x, "e": self.const(), "g": 0},
+                   {"k": "def", "x": fx, "c": ci + 1, "decos": [], "g": 0},
+                   {"k": "expr", "e": self.ev({"k": "call", "f": N(fx), "args": [], "kws": []}), "g": self.site()},
+                   {"k": "expr", "e": self.ev(N(x)), "g": self.site()}]
+            if r.random() < 0.5:
+                out += [{"k": "assign", "x": x, "e": self.const(), "g": 0},
+                        {"k": "expr", "e": self.ev({"k": "call", "f": N(fx), "args": [], "kws": []}), "g": self.site()},
+                        {"k": "expr", "e": self.ev(N(x)), "g": self.site()}]
+            return out
         if k == "ifrec":
             # bounded recursion: f(n) calls f(n - 1) while n > 0
             if kind != "func" or ctx.get("method") or "p0" not in ctx["sig"]["pk"] + ctx["sig"]["po"] or ctx.get("name") not in FUNCS:
@@ -669,6 +704,13 @@ def loci(codes):
                 out.add("comp-target")
         if kind == "class" and any(codes[j]["kind"] == "func" for j in chain(i)):
             out.add("class-in-func")
+        if kind in ("func", "native", "lambda") and par.get(i) is not None and codes[par[i]]["kind"] == "func":
+            # default expressions (evaluated in the parent) naming a variable of a function further out
+            dn = {e["x"] for d in code["dflt"] + code["kodflt"] for e in walk_exprs(d) if e["k"] == "name"}
+            pj = codes[par[i]]
+            for x in dn - local_names(pj) - set(pj["globals"]):
+                if any(codes[j]["kind"] in ("func", "native", "lambda", "comp") and x in local_names(codes[j]) for j in chain(par[i])):
+                    out.add("nested-default")
         if kind == "func" and code["globals"] and any(s["k"] == "del" and s["x"] in code["globals"] for s in walk_stmts(code["body"])):
             out.add("del-global")
         if kind in ("func", "native", "lambda", "comp"):
